@@ -438,8 +438,68 @@ def page_lemmas(maxdepth):
     return out
 
 
+# ---------------------------------------------------------------------------------------
+# FormattedRst.__init__ : the formatted report OWNS its three dictionaries (the Rst object that produced them clears and refills its own at the next format_report())
+class PyDict(ClassModel):
+    '''a dictionary as an object with an identity: only who holds it, and copies, are tracked'''
+    name = 'PyDict'
+    fields = {}
+
+    def m_copy(self, I, d):
+        return I.alloc('PyDict', {'copy_of': d})
+
+
+def formatted_init_world():
+    w = World()
+    w.globals['LOGGER'] = SNamespace('LOGGER', dropped=True)
+    w.class_models['PyDict'] = PyDict(w)
+    w.class_models['FormattedRst'] = type('FormattedRstObj', (ClassModel,), {'name': 'FormattedRst', 'fields': {}})(w)
+    def isinstance_hook(I, x, cls):
+        names = [getattr(c, 'name', None) for c in (cls if isinstance(cls, tuple) else (cls,))]
+        if isinstance(x, SObj) and x.cls == 'PyDict':
+            return bool(set(names) & {'dict', 'Mapping', 'MutableMapping', 'OrderedDict', 'defaultdict', 'list'}) if 'list' not in names else True
+        return NotImplemented
+    w.isinstance_hook = isinstance_hook
+    w.globals['dict'] = SClass('dict')
+
+    def new_dict(I, args, kwargs):
+        if len(args) == 1 and not kwargs and isinstance(args[0], SObj) and args[0].cls == 'PyDict':
+            return I.alloc('PyDict', {'copy_of': args[0]})
+        raise Undecided('dict() of this value')
+    w.construct_hooks['dict'] = new_dict
+    return w
+
+
+def formatted_init_setup(I, scope):
+    I.given = {k: I.alloc('PyDict', {'copy_of': None}) for k in ('tree_dict', 'text_dict', 'plots')}
+    scope.set('self', I.alloc('FormattedRst', {}))
+    for k, v in I.given.items():
+        scope.set(k, v)
+    for k in ('author', 'title', 'version'):
+        scope.set(k, I.fresh(STR, k))
+
+
+def formatted_init_check(I, scope, outcome):
+    p = I.path
+    L = f'{RSTF}::FormattedRst.__init__'
+    if outcome[0] != 'return':
+        return
+    me = scope.lookup('self')
+    f = I.heap[me.oid]['fields']
+    for k, given in I.given.items():
+        held = f.get(k)
+        ok = isinstance(held, SObj) and held.cls == 'PyDict' and held.oid != given.oid and I.getfield(held, 'copy_of') is given
+        p.oblige(f'{L}::post::C12-C20-the-formatted-report-owns-a-copy-of-{k}', bool(ok), kind='post',
+                 meta={'expr': f'self.{k} is a copy of the argument, not the dictionary of the caller (which format_report clears and refills for the next report)'})
+
+
+def unit_formatted_init(tier, pid, replay_fn):
+    res = verify_function(formatted_init_world(), Contract(RSTF, 'FormattedRst.__init__', params={}, signals={}), setup=formatted_init_setup, extra_check=formatted_init_check)
+    return {'functions': [prop.discharge(res, tier, pid, lambda m, r: {'note': 'see model text'}, replay_fn)]}
+
+
 def units(tier):
-    return ['write', 'write_rec', 'format_report_rec', 'page_lemmas', 'native']
+    return ['write', 'write_rec', 'format_report_rec', 'formatted_init', 'page_lemmas', 'native']
 
 
 def _replay_native(name, inp):
@@ -491,6 +551,8 @@ def run_unit(unit, tier, seed, known):
             r.pop('model', None)
             recs.append(r)
         return {'lemmas': recs}
+    if unit == 'formatted_init':
+        return unit_formatted_init(tier, ID, _replay_native)
     if unit == 'write':
         w = write_world()
         res = verify_function(w, c_write(), setup=write_setup, extra_check=write_check)
@@ -506,6 +568,6 @@ def run_unit(unit, tier, seed, known):
 
 
 def replay(name, inp):
-    if inp and ('report' in inp or inp.get('figures')):
+    if inp and ('report' in inp or inp.get('figures') or inp.get('two_reports_one_formatter')):
         return rnat.replay(inp)
     return _replay_native(name or '', inp)
